@@ -75,6 +75,7 @@ type Exec struct {
 	solver        *Solver
 	globals       map[*ssa.Global]Ptr
 	runtimeErrorT types.Type
+	rtypeT        types.Type
 	implCache     map[implKey]bool
 
 	// init
@@ -219,6 +220,17 @@ func (x *Exec) eval(c *Term) (uint64, bool) {
 		x.memo = map[int]uint64{}
 	}
 	return x.ts.Eval(c, x.model, x.memo)
+}
+
+// hint sets the value of a fresh, still unconstrained symbol in the current model.
+func (x *Exec) hint(sym *Term, v uint64) {
+	if x.model == nil || x.pos < len(x.dec) {
+		return
+	}
+	m := x.model.Clone()
+	m.Vals[sym.Name] = v
+	x.model = m
+	delete(x.memo, sym.ID)
 }
 
 func (x *Exec) setModel(m *Model) {
